@@ -175,6 +175,11 @@ def run_case(concepts, case, spec):
             for sub in ([], list(c.properties[:1]), list(c.properties)):
                 call(c.extension, sub)
         common.registry_history(concepts, case, rng, queries)
+    if len(ctx.objects) <= 12 and len(ctx.properties) <= 12:
+        # the rest of the API is used on the same context, then the derivations are asked again
+        common.interference(concepts, ctx, common.get_lattice(ctx), rng, 12)
+        _drive_axis(ctx, ctx.intension, ctx.objects, rng, spec, 40)
+        _drive_axis(ctx, ctx.extension, ctx.properties, rng, spec, 40)
     # session: an older live context (often with the very same labels) is queried
     # again after the new one was built: class-level state must not leak across.
     old = POOL.older(rng)
